@@ -7,7 +7,7 @@ T[revert_fix_01]="C01"; T[revert_fix_02]="C01 C02 C07"; T[revert_fix_03]="C01 C0
 T[revert_fix_06]="C09"; T[revert_fix_07]="C10"; T[revert_fix_08]="C13"; T[revert_fix_09]="C14"; T[revert_fix_10]="C18"; T[revert_fix_11]="C18"
 T[revert_fix_12]="C18"; T[revert_fix_13]="C16"; T[revert_fix_14]="C16"; T[revert_fix_15]="C16"; T[revert_fix_16]="C20"; T[revert_fix_17]="C08"
 T[revert_fix_18]="C06"; T[revert_fix_19]="C05"; T[revert_fix_20]="C20"; T[revert_fix_21]="C18"; T[revert_fix_22]="C14"; T[revert_fix_23]="C14"
-T[revert_fix_24]="C17"; T[revert_fix_25]="C16"; T[revert_fix_26]="C13"; T[revert_fix_27]="C16"
+T[revert_fix_24]="C17"; T[revert_fix_25]="C16"; T[revert_fix_26]="C13"; T[revert_fix_27]="C16"; T[revert_fix_28]="C16"
 OUT=mutants/RESULTS.md
 echo "| mutant | checks run | caught by | missed by |" > $OUT
 echo "|---|---|---|---|" >> $OUT
